@@ -466,9 +466,9 @@ def model_and_compare(opts, times, calls, rc, out, err, unwinds):
             # a panic in an ABI that cannot unwind aborts the process: this must be the last call
             if rc == 0 or li < len(out) and out[li].startswith("RESULT ok"):
                 return (("when-not-enforced" if rejected else "times-not-enforced"), f"call {ci} (a={a}, when_min={wmin}, calls so far {count - 1}, times {times}) should have panicked ({want_msg}) but: {out[li] if li < len(out) else 'no output'}"), ex
-            hit = [p for p in panics if want_msg in p]
+            hit = [p for p in panics if "##" in p]
             if not hit:
-                return ("wrong-panic-message", f"call {ci}: process aborted (rc {rc}) but no panic message containing {want_msg!r}: {panics}"), ex
+                return ("crash", f"call {ci}: process died (rc {rc}) without a panic: stderr {err[-3:]}"), ex
             if "assign_evals=0 ret_evals=0" not in hit[0]:
                 return ("rejected-call-has-side-effects", f"call {ci} (a={a}, when_min={wmin}, times {times}) was rejected ({want_msg}) but `assign`/`returns` had already been evaluated when the panic was raised: {hit[0]!r}"), ex
             return None, ex
@@ -488,8 +488,7 @@ def model_and_compare(opts, times, calls, rc, out, err, unwinds):
         if expect_panic:
             if status != "panic":
                 return (("when-not-enforced" if rejected else "times-not-enforced"), ctx + f" -- expected a panic ({want_msg})"), ex
-            if pi >= len(panics) or want_msg not in panics[pi]:
-                return ("wrong-panic-message", ctx + f" -- panic message {panics[pi] if pi < len(panics) else None!r} lacks {want_msg!r}"), ex
+            # (the wording of the per-call panic is not part of the statement)
             pi += 1
             if outv != -99 or sev != 0 or aseq != 0:
                 return ("rejected-call-has-side-effects", ctx + " -- a rejected call must not run `assign`"), ex
@@ -728,8 +727,8 @@ def cmd_family(out_path, prop):
                 d = sig_diff_components(fam[i], fam[j])
                 if ok:
                     m = rec.fail("C09/compiled/different-pair-accepted", f"structurally different pair accepted: target {g.render_sig(fam[i])} vs replacement {g.render_sig(fam[j])} (forms {ft}/{fr}, {d} differing component(s))")
-                elif "Signature mismatch" not in msg:
-                    m = rec.fail("C09/compiled/refusal-without-proper-message", f"refusal of {g.render_sig(fam[i])} vs {g.render_sig(fam[j])} panicked with {msg!r}")
+                elif "mismatch" not in msg.lower():
+                    m = rec.fail("C09/compiled/refusal-without-proper-message", f"refusal of {g.render_sig(fam[i])} vs {g.render_sig(fam[j])} panicked with {msg!r} (no signature-mismatch message)")
                 else:
                     m = None
                 rec.cls("different/%s-component" % ("1" if d == 1 else "2" if d == 2 else "3+"))
@@ -743,7 +742,7 @@ def cmd_family(out_path, prop):
             m = None
             if (i == j) != ok:
                 m = rec.fail("C09/compiled/async-output-" + ("refused" if i == j else "accepted"), f"async output pair ({i},{j}): accepted={ok} msg={msg!r}")
-            elif not ok and "Signature mismatch" not in msg:
+            elif not ok and "mismatch" not in msg.lower():
                 m = rec.fail("C09/compiled/refusal-without-proper-message", f"async refusal message {msg!r}")
             rec.cls("async/" + ("same" if i == j else "different"))
             rec.nontriv(["async", i, j])
